@@ -276,7 +276,10 @@ def main():
         return 2
     cfg = props[prop]
     work = tempfile.mkdtemp(prefix='verif-%s-' % prop)
-    evidence_path = os.path.join(HERE, 'evidence', prop + '.json')
+    # VERIF_EVIDENCE_DIR: dev tools that run a check against a deliberately broken tree (mutcheck.sh, seed_sweep.py) send
+    # the evidence elsewhere so that /verif/evidence always describes a run on the unchanged tree
+    evidence_dir = os.environ.get('VERIF_EVIDENCE_DIR') or os.path.join(HERE, 'evidence')
+    evidence_path = os.path.join(evidence_dir, prop + '.json')
     if os.path.exists(evidence_path):
         os.remove(evidence_path)
     code = 2
@@ -526,8 +529,9 @@ def decide(prop, cfg, tier, seed, work, args, t0):
     ev = dict(property_id=prop, tier=tier, seed=seed, level=level, coverage=coverage,
               assumptions=sorted(set(assumptions + cfg.get('assumptions', []))),
               wall_s=round(time.time() - t0, 2), violations=len(out_lines))
-    os.makedirs(os.path.join(HERE, 'evidence'), exist_ok=True)
-    with open(os.path.join(HERE, 'evidence', prop + '.json'), 'w') as f:
+    evidence_dir = os.environ.get('VERIF_EVIDENCE_DIR') or os.path.join(HERE, 'evidence')
+    os.makedirs(evidence_dir, exist_ok=True)
+    with open(os.path.join(evidence_dir, prop + '.json'), 'w') as f:
         json.dump(ev, f, indent=1)
     n_real = len(out_lines)
     if undecided and n_real == 0:
